@@ -24,6 +24,8 @@ def gen_call(rng, case, tags, depth=0, kinds=None):
     cls = case['cls']
     kinds = kinds or ['ev'] * 11 + ['trig'] * 2 + ['add_transition'] * 2 + ['add_states'] + ['set_state'] * 2 + ['remove_model'] * 2
     kind = rng.choice(kinds)
+    if kind == 'ev' and cls != 'flat' and rng.random() < 0.35:
+        kind = 'trig'       # by-name entry point (model.trigger(name)) next to model.<event>()
     tags[0] += 1
     call = {'tag': tags[0], 'kind': kind, 'script': {}}
     names = locked.STATE_NAMES[cls]
@@ -50,7 +52,7 @@ def gen_call(rng, case, tags, depth=0, kinds=None):
     elif kind == 'add_states':
         call['args'] = [rng.choice(['D', 'E'])]
     elif kind == 'set_state':
-        leaf = [n for n in names if not (cls == 'hsm' and n == 'C')]
+        leaf = [n for n in names if not (cls in ('hsm', 'hsmg') and n == 'C')]
         call['args'] = [rng.choice(leaf), rng.randrange(case['nmodels'])]
     else:
         call['args'] = [rng.randrange(locked.N_SPARE)]
@@ -58,17 +60,18 @@ def gen_call(rng, case, tags, depth=0, kinds=None):
 
 
 def gen_case(rng, nthreads, maxcalls, hsm_extras=0.7, p_dyn=0.0):
-    case = {'cls': rng.choice(['flat', 'flat', 'hsm']), 'base': copy.deepcopy(rng.choice(BASES)),
+    case = {'cls': rng.choice(['flat', 'flat', 'flat', 'hsm', 'hsm', 'hsmg']), 'base': copy.deepcopy(rng.choice(BASES)),
             'nmodels': rng.randint(1, 3), 'ignore': rng.random() < 0.4, 'queued': rng.random() < 0.2,
             'extras': {}, 'threads': []}
-    with_extras = rng.random() < (hsm_extras if case['cls'] == 'hsm' else 0.7)
+    # GraphMachine.add_model has no model_context parameter: the graph class cannot be given model contexts
+    with_extras = case['cls'] != 'hsmg' and rng.random() < (hsm_extras if case['cls'] != 'flat' else 0.7)
     for m in range(case['nmodels']):
         case['extras'][str(m)] = copy.deepcopy(rng.choice(EXTRAS)) if with_extras else []
     tags = [0]
     for _ in range(nthreads):
         case['threads'].append([gen_call(rng, case, tags) for _ in range(rng.randint(1, maxcalls))])
     case['dyn'] = []
-    if rng.random() < p_dyn:
+    if case['cls'] != 'hsmg' and rng.random() < p_dyn:
         add_dynamic(rng, case, tags)
     return case
 
@@ -365,6 +368,18 @@ CORPUS += [
 ]
 
 
+CORPUS += [
+    # an event declared locally in the compound state C is processed inside C's scope (machine-wide scope switch);
+    # another thread arrives through the by-name entry point model.trigger(name) while the owner is in that scope
+    {'cls': 'hsm', 'base': [], 'nmodels': 2, 'ignore': False, 'queued': False, 'extras': {'0': [], '1': []}, 'dyn': [],
+     'threads': [[_c(1, 'ev', [0, 'to_C']), _c(2, 'ev', [0, 'inner']), _c(3, 'trig', [0, 'inner'])],
+                 [_c(4, 'trig', [1, 'go']), _c(5, 'trig', [1, 'to_C'])]]},
+    {'cls': 'hsmg', 'base': [['lock', 1]], 'nmodels': 2, 'ignore': True, 'queued': False, 'extras': {'0': [], '1': []},
+     'dyn': [], 'threads': [[_c(1, 'trig', [0, 'to_C']), _c(2, 'trig', [0, 'flip'])],
+                            [_c(3, 'trig', [1, 'to_C']), _c(4, 'ev', [1, 'inner'])]]},
+]
+
+
 def corpus_worker(seed, per):
     _alarm(900)
     rng = random.Random(seed)
@@ -539,8 +554,11 @@ class C06(runner.Check):
     level = 'proof'
     theorems = ('TM.Locked.C06_mutex', 'TM.Locked.C06_no_overlap', 'TM.Locked.C06_serializable',
                 'TM.Locked.C06_reentrant_no_deadlock', 'TM.Locked.C06_contexts_held_in_order',
-                'TM.Locked.C06_registered_contexts', 'TM.Locked.C06_released_on_raise', 'TM.Locked.C06_snapshot_frame')
-    rule = ('thread programs on real LockedMachine / LockedHierarchicalMachine objects (default and user supplied '
+                'TM.Locked.C06_registered_contexts', 'TM.Locked.C06_released_on_raise', 'TM.Locked.C06_snapshot_frame',
+                'TM.Locked.C06_shared_writes_in_window')
+    rule = ('thread programs on real LockedMachine / LockedHierarchicalMachine / LockedHierarchicalGraphMachine (mermaid) objects; hierarchical '
+            'machines declare events locally inside a compound state (processed in a nested scope) and are triggered by attribute '
+            'and by name (model.trigger(name)); (default and user supplied '
             'machine_context lists containing a mutex, model_context lists, 1-3 shared models): 2-4 threads x 1-3 calls '
             '(events by attribute and by model.trigger, add_transition, add_states, set_state, remove_model, add_model incl. '
             're-adding a removed model with and without model_context, events on a currently unregistered model as unjudged steps, re-entrant '
@@ -623,6 +641,8 @@ class C06(runner.Check):
             'a dynamic (removed / re-added) model is used by one thread only, through top-level calls, so that whether an event hits an unregistered model is determined by program order; racing add_model / remove_model against events on the same model from other threads is not generated',
             'the update of model_context_map inside add_model / remove_model has no yield point of its own: it is placed in the scheduling step of the call\'s last __enter__ (harness granularity), in the trace and in the model schedule',
             'may_* helpers and dispatch are outside the statement\'s call list',
+            'LockedHierarchicalGraphMachine / LockedGraphMachine cannot be given model contexts at all (GraphMachine.add_model has no model_context parameter: TypeError) - recorded; the graph class is exercised with machine contexts only and without dynamic registration',
+            'the hierarchical scope (_stack / scoped / states / events / prefix_path) is part of the opaque shared machine state of the Lean model (C06_shared_writes_in_window: written only inside the lock window); on the real classes a scope switch outside the window shows up through the serial-outcome oracle',
             'user supplied contexts do not raise in __enter__/__exit__ (a context manager whose __exit__ raises breaks the with-protocol it is part of; judged outside the statement, which speaks of raising CALLBACKS) and user mutexes are non re-entrant',
             'the Lean model\'s `ret raised` is kind-agnostic (ExitStack unwinds on every BaseException); the harness varies the kind of exception raised by callbacks and probes release from another thread for every kind',
             'exhaustive enumeration is bounded by the number of preemptions (2 quick / 3 thorough) and capped per program; the theorems are unbounded',
